@@ -125,17 +125,17 @@ geometric = tfp_distribution(
     tfd.Geometric,
     name="Geometric",
 )
-"""Geometric distribution (number of trials until first success).
+"""Geometric distribution (number of failures before the first success).
 
 Mathematical Formulation:
-    PMF: P(X = k) = (1-p)^(k-1) × p for k ∈ {1, 2, 3, ...}
+    PMF: P(X = k) = (1-p)^k × p for k ∈ {0, 1, 2, ...}
 
     Where p ∈ (0, 1] is the probability of success.
 
-    Mean: 𝔼[X] = 1/p
+    Mean: 𝔼[X] = (1-p)/p
     Variance: Var[X] = (1-p)/p²
-    CDF: F(k) = 1 - (1-p)^k
-    Support: {1, 2, 3, ...}
+    CDF: F(k) = 1 - (1-p)^(k+1)
+    Support: {0, 1, 2, ...}
 
 Memoryless Property:
     P(X > m + n | X > m) = P(X > n)
@@ -143,8 +143,8 @@ Memoryless Property:
     The only discrete distribution with this property.
 
 Alternative Parameterization:
-    Some define X as failures before first success:
-    P(X = k) = (1-p)^k × p for k ∈ {0, 1, 2, ...}
+    Some define X as the number of trials until the first success (X + 1 here):
+    P(X = k) = (1-p)^(k-1) × p for k ∈ {1, 2, 3, ...}
 
 Args:
     logits: Log-odds of success log(p/(1-p)), or
@@ -254,8 +254,7 @@ Connection to Other Distributions:
     - Sum of n Exponential(λ) ~ Gamma(n, λ)
 
 Args:
-    rate: Rate parameter (> 0), or
-    scale: Scale parameter (1/rate).
+    rate: Rate parameter λ (> 0).
 """
 
 poisson = tfp_distribution(
@@ -441,7 +440,7 @@ Connection to Other Distributions:
 Args:
     concentration: Shape parameter α (> 0).
     rate: Rate parameter β (> 0), or
-    scale: Scale parameter θ = 1/β.
+    log_rate: Log of the rate parameter.
 
 References:
     .. [1] Johnson, N. L., Kotz, S., & Balakrishnan, N. (1994). "Continuous
@@ -557,8 +556,7 @@ inverse_gamma = tfp_distribution(
 
 Args:
     concentration: Shape parameter (alpha > 0).
-    rate: Rate parameter (beta > 0), or
-    scale: Scale parameter (1/rate).
+    scale: Scale parameter (beta > 0); density ∝ x^(-alpha-1) exp(-beta/x).
 """
 
 weibull = tfp_distribution(
